@@ -11,6 +11,7 @@ import (
 // GenOpt selects which request shapes the generator may produce.
 type GenOpt struct {
 	NearMiss  bool // near-miss framing header names carrying misleading values
+	CRNear    bool // framing names with a control byte in place of '-' (malformed: reject or ignore, never frame by it)
 	Fold      bool // obs-folded header / trailer values (C02 only)
 	ChunkExt  bool // chunk extensions
 	Expect100 bool
@@ -55,6 +56,10 @@ type GenReq struct {
 	HasFold    bool
 	Framed     bool // carries Content-Length or Transfer-Encoding
 	Hostile    bool
+	// Malformed: carries a header whose name is not a token (a control byte where
+	// the '-' of a framing name would be). A server may reject the request, or take the
+	// line for an ordinary field; it must not let it decide where the request ends.
+	Malformed bool
 }
 
 var bodySizes = []int{0, 1, 2, 7, 100, 1000, 4095, 4096, 4097, 8191, 8192, 8193, 12000, 65537}
@@ -277,6 +282,17 @@ func GenRequest(tp *core.Tape, idx int, last bool, o GenOpt) *GenReq {
 			at := tp.Choose("nmat", len(m.Headers)+1)
 			m.Headers = append(m.Headers[:at], append([]wire.Header{h}, m.Headers[at:]...)...)
 		}
+	}
+	if o.CRNear && tp.Chance("crnear", 1, 12) {
+		nm := []string{"Content\rLength", "Transfer\rEncoding", "content\rlength"}[tp.Choose("crname", 3)]
+		v := fmt.Sprint(tp.Pick("crv", 0, 3, 17, 4096))
+		if strings.HasPrefix(strings.ToLower(nm), "transfer") {
+			v = "chunked"
+		}
+		at := tp.Choose("crat", len(m.Headers)+1)
+		h := wire.Header{K: nm, V: v, Raw: nm + ": " + v + "\r\n"}
+		m.Headers = append(m.Headers[:at], append([]wire.Header{h}, m.Headers[at:]...)...)
+		g.Malformed = true
 	}
 	if m.Proto == "HTTP/1.0" && !last {
 		m.Headers = append(m.Headers, wire.Header{K: "Connection", V: "keep-alive"})
